@@ -895,3 +895,108 @@ Lemma gen_Matrix_scalar_operation_assign {L S} c (a : matrix L) (s : S) (op : L 
   G_Matrix_scalar_operation_assign c a s op = Val (scalar_operation_assign op a s).
 Proof. unfold G_Matrix_scalar_operation_assign, scalar_operation_assign. rewrite map_res_pure_a. reflexivity. Qed.
 (* END *)
+
+(* ---------- lib.rs: apply / map / map_ref / clear / contains / overwrite / resize ---------- *)
+(* BEGIN Matrix_apply *)
+Lemma map_res_pure_ap {X Y} (f : X -> Y) (l : list X) : map_res (fun x => Val (f x)) l = Val (map f l).
+Proof. induction l as [|x l IH]; cbn [map_res map bind]; [reflexivity|]. rewrite IH. reflexivity. Qed.
+Lemma gen_Matrix_apply {L} c (m : matrix L) f : G_Matrix_apply c m f = Val (apply f m).
+Proof. unfold G_Matrix_apply, apply. rewrite map_res_pure_ap. reflexivity. Qed.
+(* END *)
+(* BEGIN Matrix_map *)
+Lemma map_res_pure_m {X Y} (f : X -> Y) (l : list X) : map_res (fun x => Val (f x)) l = Val (map f l).
+Proof. induction l as [|x l IH]; cbn [map_res map bind]; [reflexivity|]. rewrite IH. reflexivity. Qed.
+Lemma gen_Matrix_map {L U} c esU (m : matrix L) (f : L -> U) : 0 <= imax c -> G_Matrix_map c esU m f = Val (map_matrix c esU f m).
+Proof.
+  intros Hc. unfold G_Matrix_map, map_matrix, retype. cbn [G_Matrix_size bind]. rewrite gen_Matrix_check_size by exact Hc. cbn [bind].
+  unfold size, vec_len, mview. cbn [f_Matrix_data]. destruct (check_size c esU (zlen (m_data m))); [|reflexivity]. rewrite map_res_pure_m. reflexivity.
+Qed.
+(* END *)
+(* BEGIN Matrix_map_ref *)
+Lemma map_res_pure_mr {X Y} (f : X -> Y) (l : list X) : map_res (fun x => Val (f x)) l = Val (map f l).
+Proof. induction l as [|x l IH]; cbn [map_res map bind]; [reflexivity|]. rewrite IH. reflexivity. Qed.
+Lemma gen_Matrix_map_ref {L U} c esU (m : matrix L) (f : L -> U) : 0 <= imax c -> G_Matrix_map_ref c esU m f = Val (map_matrix c esU f m).
+Proof.
+  intros Hc. unfold G_Matrix_map_ref, map_matrix, retype. cbn [G_Matrix_size bind]. rewrite gen_Matrix_check_size by exact Hc. cbn [bind].
+  unfold size, vec_len, mview. cbn [f_Matrix_data]. destruct (check_size c esU (zlen (m_data m))); [|reflexivity]. rewrite map_res_pure_mr. reflexivity.
+Qed.
+(* END *)
+(* BEGIN Matrix_clear *)
+Lemma gen_Matrix_clear {L} c (m : matrix L) : G_Matrix_clear c m = Val (clear m).
+Proof. reflexivity. Qed.
+(* END *)
+(* BEGIN Matrix_contains *)
+Lemma gen_Matrix_contains {L} c eqT (m : matrix L) v : G_Matrix_contains c eqT m v = Val (contains eqT m v).
+Proof. reflexivity. Qed.
+(* END *)
+(* BEGIN Matrix_overwrite *)
+Ltac rc :=
+  repeat (cbn [bind];
+          match goal with
+          | |- context [bind ?x _] =>
+            lazymatch x with
+            | Val _ => fail
+            | bind _ _ => fail
+            | (if _ then _ else _) => fail
+            | (match _ with _ => _ end) => fail
+            | _ => destruct x
+            end
+          | |- context [bind (if ?b then _ else _) _] => destruct b
+          end);
+  cbn [bind]; try reflexivity.
+Lemma for_res_ext3 {S} (l : list Z) (s : S) f g : (forall i s, f i s = g i s) -> for_res l s f = for_res l s g.
+Proof. intros E. revert s. induction l as [|i l IH]; intros s; cbn [for_res]; [reflexivity|]. rewrite E. destruct (g i s); cbn [bind]; auto. Qed.
+
+Lemma gen_Matrix_overwrite {A} c (clone : A -> A) (d s : matrix A) : G_Matrix_overwrite c clone d s = overwrite c clone d s.
+Proof.
+  unfold G_Matrix_overwrite, overwrite, GOrder_eqb, mmajor, mminor.
+  cbn [G_Matrix_major G_Matrix_minor G_Matrix_major_stride G_Matrix_minor_stride G_AxisShape_major G_AxisShape_minor
+       G_AxisShape_major_stride G_AxisShape_minor_stride bind mview f_Matrix_shape].
+  unfold f_AxisShape_major, f_AxisShape_minor. cbv zeta.
+  destruct (order_eqb (m_order d) (m_order s)).
+  - erewrite for_res_ext3.
+    2:{ intros i data. 
+        instantiate (1 := fun i data =>
+      let* self_lower := umul c i (AxisShape_major_stride (m_shape d)) in
+      let* t := umul c (Z.min (minor (m_shape d)) (minor (m_shape s))) (AxisShape_minor_stride (m_shape d)) in
+      let* self_upper := uadd c self_lower t in
+      let* source_lower := umul c i (AxisShape_major_stride (m_shape s)) in
+      let* source_upper := uadd c source_lower t in
+      let* dst := slice_unchecked data self_lower self_upper in
+      let* src := slice_unchecked (m_data s) source_lower source_upper in
+      if negb (zlen dst =? zlen src) then Panic PanicStd
+      else Val (splice data self_lower (map clone src))).
+        cbv beta. unfold AxisShape_major_stride, AxisShape_minor_stride. rc. all: try (destruct (negb (_ =? _)); reflexivity). }
+    cbn [bind]. match goal with |- context [for_res ?l ?s0 ?f] => destruct (for_res l s0 f) end; reflexivity.
+  - erewrite for_res_ext3.
+    2:{ intros i data.
+        instantiate (1 := fun i data =>
+      let* self_lower := umul c i (AxisShape_major_stride (m_shape d)) in
+      let* t := umul c (Z.min (minor (m_shape d)) (major (m_shape s))) (AxisShape_minor_stride (m_shape d)) in
+      let* self_upper := uadd c self_lower t in
+      let* dst := slice_unchecked data self_lower self_upper in
+      let* src := zview i (AxisShape_major_stride (m_shape s)) (zlen (m_data s)) (m_data s) in
+      let k := Z.min (zlen dst) (zlen src) in
+      Val (splice data self_lower (map clone (zfirstn k src)))).
+        cbv beta zeta. unfold AxisShape_major_stride, AxisShape_minor_stride. rc. }
+    cbn [bind]. match goal with |- context [for_res ?l ?s0 ?f] => destruct (for_res l s0 f) end; reflexivity.
+Qed.
+(* END *)
+(* BEGIN Matrix_resize *)
+(* the normal (non-unwinding) execution of resize; what the unwind guard does when T::default panics is the fault model's
+   business (Proofs/Faults.v, C02) *)
+Lemma gen_Matrix_resize {A} c es (d : A) (m : matrix A) sh : 0 <= imax c ->
+  G_Matrix_resize c es d m sh =
+    let* r := resize c es d m (sh_nrows sh) (sh_ncols sh) in Val (match r with Ok m' => (m', Ok tt) | Err e => (m, Err e) end).
+Proof.
+  intros Hc. unfold G_Matrix_resize, resize, decide_shape. rewrite gen_Shape_try_to_axis_shape. cbn [bind].
+  destruct sh as [r cl]. cbn [sh_nrows sh_ncols].
+  destruct (Shape_try_to_axis_shape c (mkShape r cl) (m_order m)) as [s|e]; [|reflexivity].
+  rewrite gen_AxisShape_size. destruct (AxisShape_size c s) as [n|w|w]; cbn [bind]; try reflexivity.
+  rewrite gen_Matrix_check_size by exact Hc. cbn [bind]. destruct (check_size c es n) as [sz|e]; [|reflexivity].
+  cbn [G_Matrix_size bind]. unfold vec_len, mview, size. cbn [f_Matrix_data].
+  destruct (sz <=? zlen (m_data m)) eqn:L; cbn [bind].
+  - reflexivity.
+  - unfold vec_resize_with, set_data, set_m_shape. cbn [m_data m_order m_shape]. rewrite L. reflexivity.
+Qed.
+(* END *)
